@@ -87,7 +87,7 @@ mod verif_c03i {
 
     /// Constructor contract: crop = (0,0,size) /\ crop_area; the invariant holds with
     /// rb = crop.y * width + crop.x (the one product), x = y = 0, cropped size and row_skip as stated.
-    //@harness prop=C03 kind=contract tier=quick class=P fns=src/iterator/contiguous.rs::Cropped::new
+    //@harness prop=C03,C08 kind=contract tier=quick class=P fns=src/iterator/contiguous.rs::Cropped::new
     #[kani::proof]
     fn c03_cropped_iter_new() {
         let size: Size = kani::any();
@@ -204,7 +204,7 @@ mod verif_c03 {
 
     // ---------------------------------------------------------------- Clipped
     /// bounding box = clip /\ parent box (as a point set), for arbitrary non-origin, possibly empty boxes
-    //@harness prop=C03 kind=contract tier=quick class=P fns=src/draw_target/clipped.rs::Clipped::new;src/draw_target/clipped.rs::Clipped::bounding_box
+    //@harness prop=C03,C08 kind=contract tier=quick class=P fns=src/draw_target/clipped.rs::Clipped::new;src/draw_target/clipped.rs::Clipped::bounding_box
     #[kani::proof]
     fn c03_clipped_bounding_box() {
         let bbox = any_rect(DOM);
@@ -221,7 +221,7 @@ mod verif_c03 {
 
     /// fill_solid through a clipped target: nothing outside clip /\ box reaches the parent; inside it
     /// the parent ends up exactly as after the direct operation. All areas, loop-free.
-    //@harness prop=C03 kind=contract tier=quick class=P fns=src/draw_target/clipped.rs::Clipped::fill_solid
+    //@harness prop=C03,C08 kind=contract tier=quick class=P fns=src/draw_target/clipped.rs::Clipped::fill_solid
     #[kani::proof]
     fn c03_clipped_fill_solid() {
         let bbox = any_rect(DOM);
@@ -318,7 +318,7 @@ mod verif_c03 {
     // ---------------------------------------------------------------- Translated
     /// translated target: documented shift and bounding box; every operation == the direct one on the
     /// shifted geometry. fill_solid / clear / box loop-free.
-    //@harness prop=C03 kind=contract tier=quick class=P fns=src/draw_target/translated.rs::Translated::fill_solid;src/draw_target/translated.rs::Translated::clear;src/draw_target/translated.rs::Translated::bounding_box
+    //@harness prop=C03,C08 kind=contract tier=quick class=P fns=src/draw_target/translated.rs::Translated::fill_solid;src/draw_target/translated.rs::Translated::clear;src/draw_target/translated.rs::Translated::bounding_box
     #[kani::proof]
     fn c03_translated_fill_solid_clear_box() {
         let bbox = any_rect(DOM);
@@ -380,7 +380,7 @@ mod verif_c03 {
 
     // ---------------------------------------------------------------- Cropped target
     /// cropped(area): origin at (area /\ parent box).top_left, size of that intersection, not clipped.
-    //@harness prop=C03 kind=contract tier=quick class=P fns=src/draw_target/cropped.rs::Cropped::new;src/draw_target/cropped.rs::Cropped::size;src/draw_target/cropped.rs::Cropped::fill_solid;src/draw_target/cropped.rs::Cropped::clear(default)
+    //@harness prop=C03,C08 kind=contract tier=quick class=P fns=src/draw_target/cropped.rs::Cropped::new;src/draw_target/cropped.rs::Cropped::size;src/draw_target/cropped.rs::Cropped::fill_solid;src/draw_target/cropped.rs::Cropped::clear(default)
     #[kani::proof]
     fn c03_cropped_target_fill_solid_clear_box() {
         let bbox = any_rect(DOM);
